@@ -391,7 +391,7 @@ fn parse_new_reference_ext<'a>(input: &'a [u8], cache: &AtomCache) -> NomResult<
         return Err(nom::Err::Failure(NomError::new(input, ErrorKind::Tag)));
     };
     let (input, creation) = be_u8(input)?;
-    let mut ids = Vec::with_capacity(len as usize);
+    let mut ids = Vec::with_capacity((len as usize).min(input.len() / 4));
     let mut remaining = input;
     for _ in 0..len {
         let (rest, id) = be_u32(remaining)?;
@@ -578,7 +578,8 @@ fn parse_small_tuple<'a>(input: &'a [u8], cache: &AtomCache) -> NomResult<'a, Ow
         return Err(nom::Err::Failure(NomError::new(input, ErrorKind::TooLarge)));
     }
     let mut remaining = input;
-    let mut elements = Vec::with_capacity(arity as usize);
+    // every element takes at least one byte, so the input bounds what is worth reserving
+    let mut elements = Vec::with_capacity((arity as usize).min(input.len()));
 
     for _ in 0..arity {
         let (new_remaining, term) = parse_term(remaining, cache)?;
@@ -595,7 +596,8 @@ fn parse_large_tuple<'a>(input: &'a [u8], cache: &AtomCache) -> NomResult<'a, Ow
         return Err(nom::Err::Failure(NomError::new(input, ErrorKind::TooLarge)));
     }
     let mut remaining = input;
-    let mut elements = Vec::with_capacity(arity as usize);
+    // every element takes at least one byte, so the input bounds what is worth reserving
+    let mut elements = Vec::with_capacity((arity as usize).min(input.len()));
 
     for _ in 0..arity {
         let (new_remaining, term) = parse_term(remaining, cache)?;
@@ -622,7 +624,8 @@ fn parse_list<'a>(input: &'a [u8], cache: &AtomCache) -> NomResult<'a, OwnedTerm
         return Err(nom::Err::Failure(NomError::new(input, ErrorKind::TooLarge)));
     }
     let mut remaining = input;
-    let mut elements = Vec::with_capacity(len as usize);
+    // every element takes at least one byte, so the input bounds what is worth reserving
+    let mut elements = Vec::with_capacity((len as usize).min(input.len()));
 
     for _ in 0..len {
         let (new_remaining, term) = parse_term(remaining, cache)?;
@@ -744,7 +747,7 @@ fn parse_newer_reference<'a>(input: &'a [u8], cache: &AtomCache) -> NomResult<'a
     let (input, creation) = be_u32(input)?;
 
     let mut remaining = input;
-    let mut ids = Vec::with_capacity(len as usize);
+    let mut ids = Vec::with_capacity((len as usize).min(input.len() / 4));
     for _ in 0..len {
         let (new_remaining, id) = be_u32(remaining)?;
         ids.push(id);
@@ -846,7 +849,8 @@ fn parse_new_fun_ext<'a>(input: &'a [u8], cache: &AtomCache) -> NomResult<'a, Ow
     };
 
     let mut remaining = input;
-    let mut free_vars = Vec::with_capacity(num_free as usize);
+    // every free variable takes at least one byte, so the input bounds what is worth reserving
+    let mut free_vars = Vec::with_capacity((num_free as usize).min(input.len()));
     for _ in 0..num_free {
         let (new_remaining, term) = parse_term(remaining, cache)?;
         free_vars.push(term);
@@ -1003,7 +1007,8 @@ fn parse_small_tuple_borrowed<'a>(
         return Err(nom::Err::Failure(NomError::new(input, ErrorKind::TooLarge)));
     }
     let mut remaining = input;
-    let mut elements = Vec::with_capacity(arity as usize);
+    // every element takes at least one byte, so the input bounds what is worth reserving
+    let mut elements = Vec::with_capacity((arity as usize).min(input.len()));
 
     for i in 0..arity {
         ctx.push(PathSegment::TupleElement(i as usize));
@@ -1026,7 +1031,8 @@ fn parse_large_tuple_borrowed<'a>(
         return Err(nom::Err::Failure(NomError::new(input, ErrorKind::TooLarge)));
     }
     let mut remaining = input;
-    let mut elements = Vec::with_capacity(arity as usize);
+    // every element takes at least one byte, so the input bounds what is worth reserving
+    let mut elements = Vec::with_capacity((arity as usize).min(input.len()));
 
     for i in 0..arity {
         ctx.push(PathSegment::TupleElement(i as usize));
@@ -1059,7 +1065,8 @@ fn parse_list_borrowed<'a>(
         return Err(nom::Err::Failure(NomError::new(input, ErrorKind::TooLarge)));
     }
     let mut remaining = input;
-    let mut elements = Vec::with_capacity(len as usize);
+    // every element takes at least one byte, so the input bounds what is worth reserving
+    let mut elements = Vec::with_capacity((len as usize).min(input.len()));
 
     for i in 0..len {
         ctx.push(PathSegment::ListElement(i as usize));
@@ -1206,7 +1213,7 @@ fn parse_newer_reference_borrowed<'a>(
     let (input, creation) = be_u32(input)?;
 
     let mut remaining = input;
-    let mut ids = Vec::with_capacity(len as usize);
+    let mut ids = Vec::with_capacity((len as usize).min(input.len() / 4));
     for _ in 0..len {
         let (new_remaining, id) = be_u32(remaining)?;
         ids.push(id);
@@ -1324,7 +1331,8 @@ fn parse_new_fun_ext_borrowed<'a>(
     };
 
     let mut remaining = input;
-    let mut free_vars = Vec::with_capacity(num_free as usize);
+    // every free variable takes at least one byte, so the input bounds what is worth reserving
+    let mut free_vars = Vec::with_capacity((num_free as usize).min(input.len()));
     for i in 0..num_free {
         ctx.push(PathSegment::FunFreeVar(i as usize));
         let (new_remaining, term) = parse_term_borrowed(remaining, original_len, ctx)?;
